@@ -140,3 +140,4 @@ MANIFEST = {
     "technique": "runtime monitoring: tagged-data tracing through the real replication ops + taps on the decoding strategy, checked by an independent per-instance objective",
     "design_ref": "DESIGN.md section 4 / C12",
 }
+MANIFEST["text"] += ' Round 7: SMTWTP start audits.'
